@@ -13,7 +13,7 @@ use serde_json::{json, Value};
 pub struct C11;
 
 fn hostile_path(r: &mut Rng) -> String {
-    let comps = ["..", ".", "", "name", "..name", "a..b", "dir", "k1", "etc", "secret", "hub-evil", "srv", "passwd"];
+    let comps = ["..", ".", "", "name", "..name", "a..b", "dir", "k1", "etc", "secret", "hub-evil", "srv", "passwd", "é", "猫猫", "naïve"];
     let n = r.urange(1, 5);
     let mut parts: Vec<String> = (0..n).map(|_| (*r.pick(&comps)).to_string()).collect();
     if r.below(12) == 0 {
@@ -21,6 +21,16 @@ fn hostile_path(r: &mut Rng) -> String {
     }
     if r.below(25) == 0 {
         parts.push("M".repeat(4096));
+    }
+    // medium-long components, ASCII and multi-byte, of every length around 64 bytes
+    if r.below(6) == 0 {
+        let n = r.urange(55, 70);
+        let mut c = "a".repeat(n);
+        if r.coin() {
+            c.push('é');
+            c.push_str(&"b".repeat(r.urange(0, 8)));
+        }
+        parts.insert(r.usize_below(parts.len() + 1), c);
     }
     let sep = if r.below(4) == 0 { "//" } else { "/" };
     let mut s = parts.join(sep);
@@ -102,7 +112,19 @@ impl Check for C11 {
                     }),
                 }
             }
-            clients.push(ClientProg { reqs, chunk_seed: r.next_u64(), magic: true, bye: true });
+            // a third of the clients pipeline their requests (send everything, then read)
+            let pipeline = n == 1 && r.below(3) == 0;
+            if pipeline {
+                for q in &mut reqs {
+                    // (a pipelined client cannot learn from replies)
+                    if let Req::Put { expected, .. } | Req::Delete { expected, .. } = q {
+                        if *expected == Exp::Learned {
+                            *expected = Exp::Initial;
+                        }
+                    }
+                }
+            }
+            clients.push(ClientProg { reqs, chunk_seed: r.next_u64(), magic: true, bye: true, pipeline });
         }
         HubSc {
             seed: r.next_u64(),
@@ -319,11 +341,23 @@ impl Check for C12 {
             // structured session with error-provoking, well-framed requests
             let mut reqs = Vec::new();
             for _ in 0..r.urange(3, 8) {
-                match r.below(8) {
+                match r.below(10) {
                     0 => reqs.push(Req::Put { path: "../evil".into(), expected: Exp::None, size: *r.pick(&[24u32, 5000, 300_000]), declared: Declared::Valid, shared_body: None }),
                     1 => reqs.push(Req::Put { path: "k1".into(), expected: Exp::Learned, size: *r.pick(&[24u32, 5000, 300_000]), declared: Declared::WrongHash, shared_body: None }),
                     2 => reqs.push(Req::Get { path: "missing".into() }),
                     3 => reqs.push(Req::Delete { path: "/abs".into(), expected: Exp::None }),
+                    8 => {
+                        // a refused path longer than 64 bytes with a multi-byte character near byte 64
+                        let n = r.urange(55, 66);
+                        reqs.push(Req::Get { path: format!("../{}é{}", "a".repeat(n), "b".repeat(5)) });
+                    }
+                    9 => {
+                        // passes the path check, but its staging file cannot be created: the server
+                        // may answer Error or end the session; if it answers, it must stay in step
+                        let p = (*r.pick(&["newdir/", "k1/", "zz/"])).to_string();
+                        let p = if r.below(3) == 0 { "n".repeat(250) } else { p };
+                        reqs.push(Req::Put { path: p, expected: Exp::None, size: *r.pick(&[24u32, 200, 5000]), declared: Declared::Valid, shared_body: None });
+                    }
                     4 => reqs.push(Req::Put { path: (*r.pick(&["k1", "n/new"])).into(), expected: Exp::Learned, size: 40, declared: Declared::Valid, shared_body: None }),
                     5 => reqs.push(Req::Get { path: "k1".into() }),
                     6 => reqs.push(Req::List),
@@ -333,7 +367,7 @@ impl Check for C12 {
             let sess = HubSc {
                 seed: r.next_u64(),
                 init: vec![("k1".into(), 1)],
-                clients: vec![ClientProg { reqs, chunk_seed: r.next_u64(), magic: true, bye: r.coin() }],
+                clients: vec![ClientProg { reqs, chunk_seed: r.next_u64(), magic: true, bye: r.coin(), pipeline: r.below(3) == 0 }],
                 policy: PolicySpec { kind: 0, a: 0, b: 0 },
                 pipe_cap: *r.pick(&[4096u32, 65536]),
                 short_read_pct: *r.pick(&[0u32, 40]),
@@ -467,9 +501,10 @@ impl Check for C12 {
         let mut rep = RunReport::default();
         if sc.mode == 1 {
             let Some(sess) = &sc.session else { return rep };
+            let may_be_fatal = |q: &Req| matches!(q, Req::Put { path, .. } if path.ends_with('/') || path.len() >= 250);
             let is_err_req = |q: &Req| match q {
-                Req::Put { path, declared, .. } => super::c11::must_refuse(path) || *declared == Declared::WrongHash,
-                Req::Get { path } => path == "missing",
+                Req::Put { path, declared, .. } => super::c11::must_refuse(path) || *declared == Declared::WrongHash || path.ends_with('/') || path.len() >= 250,
+                Req::Get { path } => path == "missing" || super::c11::must_refuse(path),
                 Req::Delete { path, .. } => super::c11::must_refuse(path),
                 _ => false,
             };
@@ -494,11 +529,18 @@ impl Check for C12 {
                     return rep;
                 }
             }
-            if a.len() != b.len() {
+            // a request whose staging file cannot be created may legitimately END the session
+            // (reported I/O error, no reply); the in-step clause applies only if it was answered
+            let fatal_at = a.iter().position(|x| sess.clients[0].reqs.get(x.idx).map_or(false, |q| may_be_fatal(q)) && !matches!(&x.resp, Some((_, Reply::Error(_)))));
+            if fatal_at.is_none() && a.len() != b.len() {
                 rep.fail("c12.in_step", "stream-out-of-step-after-error-reply", format!("{} ops answered with the erroring requests, {} without", a.len(), b.len()));
                 return rep;
             }
-            for (x, y) in a.iter().zip(b.iter()) {
+            for (i, (x, y)) in a.iter().zip(b.iter()).enumerate() {
+                if fatal_at.map_or(false, |f| i >= f) {
+                    rep.probe("session_ended_by_unstageable_put", 1);
+                    return rep;
+                }
                 let erroring = sess.clients[0].reqs.get(x.idx).map_or(false, |q| is_err_req(q));
                 if erroring {
                     if !matches!(&x.resp, Some((_, Reply::Error(_)))) {
@@ -552,6 +594,7 @@ impl Check for C12 {
                 chunk_seed: sc.seed ^ 0xC12,
                 magic: false,
                 bye: false,
+                pipeline: false,
             }],
             policy: PolicySpec { kind: 0, a: 0, b: 0 },
             pipe_cap: sc.pipe_cap,
